@@ -66,6 +66,15 @@ CLAIMED = {
             'survive, once, in frequency order, attributes intact (all ~3.7k edge orderings).',
             'floats as reals; amplifier physics stubbed in the chain harness; 5 fixed channel positions there',
             'DESIGN.md §2 C07'),
+    'C09': ('symx',
+            'bounded symbolic execution of the real design-rule code with z3 (linear real/integer arithmetic, exact rounding); models '
+            'replayed on the float code',
+            'target_power for symbolic span loss, slope, reference loss and range bounds (steps 0.1/0.5/1/0.01): result = slope x (loss - '
+            'ref) rounded to the step and clamped, always inside the range, 0 before a ROADM; set_one_amplifier from an arbitrary upstream '
+            'state in power mode (with/without operator delta_p and VOA) and gain mode: gain = loss since previous amplifier + change of '
+            'target + VOAs, total design power <= p_max, operator gain/offset kept unless saturating (inductive step along an OMS).',
+            'floats as reals; imposed amplifier type; no Raman gain / SRS deviation; span loss injected via the design_span_loss cache',
+            'DESIGN.md §2 C09'),
     'C10': ('symx',
             'bounded symbolic execution of the real amplifier selection code with z3 (symbolic gain/power/allowance, real NF model per '
             'candidate); discrete precedence situations enumerated with symbolic design-band edges; models replayed on the float code',
